@@ -158,6 +158,8 @@ def do_replay(mod, path):
     Returns the list of violation messages it produces."""
     with open(path) as f:
         rec = json.load(f)
+    if rec.get("part") == "crash":
+        return _replay_crash(rec, path)
     if not hasattr(mod, "replay"):
         raise HarnessError("check has no replay()")
     out = list(mod.replay(rec.get("part"), rec.get("case")) or [])
@@ -178,6 +180,48 @@ def do_replay(mod, path):
     return ["(reproduces only after the preceding cases of its shard - the "
             "code under test keeps state between calls) " + m
             for m in msgs]
+
+
+def _replay_crash(rec, path):
+    """an uncaught exception of the code under test: re-run the shard that
+    raised it (or, if it was raised in the main process, the whole check) in
+    a fresh process and expect the same exception type again"""
+    import subprocess
+    env = dict(os.environ, EVO_VERIF_NO_SHARD="1", EVO_VERIF_CRASH_REPLAY="1")
+    if rec.get("shard"):
+        cmd = [sys.executable, "-m", "mc.runner", rec["property"],
+               "--replay-shard", path]
+        mark = "SHARD-VIOLATION "
+    else:
+        cmd = [sys.executable, "-m", "mc.runner", rec["property"], "--tier",
+               (rec.get("case") or {}).get("tier", "quick"), "--no-evidence"]
+        mark = "CRASH-VIOLATION "
+    r = subprocess.run(cmd, env=env, cwd=VERIF, capture_output=True,
+                       text=True)
+    want = (rec.get("cls") or {}).get("type")
+    return [l[len(mark):] for l in r.stdout.splitlines()
+            if l.startswith(mark) and ("raised %s:" % want) in l]
+
+
+def _report_crash(prop, tier, info, shard):
+    """uncaught exception from the code under test -> VIOLATION"""
+    v = {"part": "crash", "msg": info["msg"],
+         "cls": {"kind": "uncaught-exception", "type": info["type"],
+                 "where": info["where"]},
+         "case": {"tier": tier, "traceback": info["traceback"]},
+         "shard": shard}
+    if os.environ.get("EVO_VERIF_CRASH_REPLAY"):
+        print("CRASH-VIOLATION " + info["msg"].replace("\n", " "))
+        return 1
+    path = write_replay(prop, v)
+    for _ in range(2):
+        if not _replay_crash(json.load(open(path)), path):
+            print(info["traceback"])
+            raise HarnessError("crash of the code under test did not "
+                               "reproduce in a fresh process: %s" % path)
+    print("  [crash] " + info["msg"])
+    print("VIOLATION property=%s replay=%s" % (prop, path))
+    return 1
 
 
 def main(argv=None):
@@ -210,8 +254,17 @@ def main(argv=None):
             from mc.engine.core import rerun_shard
             with open(args.replay_shard) as f:
                 rec = json.load(f)
-            for m in rerun_shard(rec["shard"], rec.get("part"),
-                                 rec.get("cls"))[:3]:
+            try:
+                msgs = rerun_shard(rec["shard"], rec.get("part"),
+                                   rec.get("cls"))
+            except Exception as e:
+                from mc.engine.core import classify_exception
+                info = classify_exception(e)
+                if info is None:
+                    raise
+                msgs = [info["msg"]] if rec.get("part") == "crash" and \
+                    info["type"] == (rec.get("cls") or {}).get("type") else []
+            for m in msgs[:3]:
                 print("SHARD-VIOLATION " + m.replace("\n", " "))
             return 0
         if args.replay:
@@ -279,7 +332,18 @@ def main(argv=None):
     except HarnessError as e:
         print("HARNESS-ERROR property=%s: %s" % (prop, e))
         return 2
-    except Exception:
+    except Exception as e:
+        from mc.engine.core import EvoCrash, classify_exception
+        try:
+            if isinstance(e, EvoCrash):
+                return _report_crash(prop, args.tier, e.info, e.shard)
+            info = None if (args.replay or args.replay_shard) else \
+                classify_exception(e)
+            if info is not None:
+                return _report_crash(prop, args.tier, info, None)
+        except HarnessError as e2:
+            print("HARNESS-ERROR property=%s: %s" % (prop, e2))
+            return 2
         traceback.print_exc()
         print("HARNESS-ERROR property=%s: unexpected exception" % prop)
         return 2
